@@ -574,3 +574,7 @@ refactor("R24-1", ["C10", "C18"])
 refactor("R24-3", ["C10", "C18", "C05"])
 refactor("R24-4", ["C10", "C06", "C18"])
 refactor("R24-5", ["C10", "C08"])
+refactor("R22-3", ["C04", "C19", "C08"])
+refactor("R23-1", ["C08", "C09", "C10", "C17"])
+refactor("R23-3", ["C08", "C09"])
+refactor("R23-4", ["C08", "C09", "C16"])
